@@ -48,6 +48,26 @@ Definition fmul_exact (a b : fval) : fval :=
 Definition fmul32 a b := round32 (fmul_exact a b).
 Definition fmul64 a b := round64 (fmul_exact a b).
 
+(** division: quotient with >= 69 significant bits plus a sticky bit, then one rounding *)
+Definition fdiv_r (round : fval -> fval) (a b : fval) : fval :=
+  match a, b with
+  | Fin s1 m1 e1, Fin s2 m2 e2 =>
+      if m2 =? 0 then (if m1 =? 0 then NaN else Inf (xorb s1 s2))
+      else if m1 =? 0 then Fin (xorb s1 s2) 0 0
+      else
+        let k := Z.max 0 (Z.log2 m2 - Z.log2 m1 + 70) in
+        let num := m1 * 2 ^ k in
+        let q := num / m2 in
+        let r := num mod m2 in
+        round (Fin (xorb s1 s2) (2 * q + (if r =? 0 then 0 else 1)) (e1 - e2 - k - 1))
+  | NaN, _ | _, NaN => NaN
+  | Inf s1, Inf s2 => NaN
+  | Inf s1, Fin s2 _ _ => Inf (xorb s1 s2)
+  | Fin s1 _ _, Inf s2 => Fin (xorb s1 s2) 0 0
+  end.
+Definition fdiv32 := fdiv_r round32.
+Definition fdiv64 := fdiv_r round64.
+
 Definition fneg (a : fval) : fval :=
   match a with Fin s m e => Fin (negb s) m e | Inf s => Inf (negb s) | NaN => NaN end.
 
